@@ -528,6 +528,9 @@ func c11Run(t *testing.T, sc Scenario, res *Result) {
 			res.violate(sc, "c11/wrong-case", "Check reproduces a different test case than the one that signalled the failure", detail)
 		}
 		v := judgeReality(cr, true)
+		if v.inconclusive != "" {
+			res.inconclusive(v.inconclusive)
+		}
 		for _, pr := range v.problems {
 			for k, d := range v.detail {
 				detail[k] = d
